@@ -33,6 +33,12 @@ CLAIMED = {
  "C19": dict(engine="filters", design="5 C19",
    technique="RFC 4791 4.1 rules as TLA+ operators (CalFilter.Valid/TheType/TheUid); all 108 482 calendars enumerated by TLC, executed on the real ValidateCalendarObject, judged by TLC (incl. count and order of the executed universe)",
    text="Exhaustive in both tiers: every sequence of <= 4 components over five types x UID {absent, u1, u2}, with and without METHOD; accept/reject, returned type and UID, empty results on rejection, argument unchanged; UID tokens concretised several ways (escaped characters, prefix-related UIDs)."),
+ "C08": dict(engine="wire", design="5 C08",
+   technique="RFC 4791 request grammar as a TLA+ module over abstract XML (CalWire: independent writer and reader, law reader(writer(q)) = q checked by TLC); TLC-enumerated queries replayed in both directions through the real client and server; observations judged by TLC",
+   text="Every calendar-query / calendar-multiget of the bounded universe (filter trees with is-not-defined at all three levels, negate-condition, time ranges closed / open-start / open-end on components and properties, param-filters; component requests of depth 2 with names, allprop/prop, allcomp/comp, expand; href lists 1-3 needing escaping): wire->backend (the specification's document rendered in 4 lexical styles: default namespaces, conventional and misleading prefixes, reversed attributes, whitespace, CDATA) must reach the recording backend as the denoted request; client->wire (captured body re-read by an independent reader) must have RFC shape and DTD child order and denote the same request; instants handed over in several zones must appear as the same UTC instant; documents outside the RFC must be refused with 4xx and no backend call."),
+ "C09": dict(engine="wire", design="5 C09",
+   technique="RFC 6352 request grammar as a TLA+ module over abstract XML (CardWire); same construction as C08; enumeration values exhaustively including unset and invalid ones",
+   text="Every addressbook-query / multiget of the bounded universe (12k quick, 170k thorough: test at both levels x match type x negate x is-not-defined x param-filters x limit x selection, each enumeration incl. unset and an invalid token) in both directions, 4 lexical styles, several token concretisations; invalid enumeration values must be refused (client error or 4xx without backend call), never guessed; 27 kinds of documents outside the RFC must be refused."),
  "C17": dict(engine="davtree", design="5 C17",
    technique="leak bit recorded on every event of the DavTree universes, required FALSE by the TLC judge",
    text="Every response (headers and body) of every (tree, request) pair, body fault and conditional request is scanned for the absolute path of the sandbox (and its symlink-resolved form); the specification's responses carry no such datum, so any occurrence is a reject."),
@@ -73,6 +79,9 @@ m = {
   {"name": "conc", "path": "spec/Upload.tla spec/UploadTrace.tla spec/DavConc.tla lib/upgraph.py harness/cmd/uprec harness/cmd/concrec lib/checks_conc.py",
    "serves_properties": ["C18"],
    "kind_free_text": "protocol model with liveness; state-graph transition cover replayed into the real code; trace validation of real-transport runs; concurrency histories under the race detector"},
+  {"name": "wire", "path": "spec/XmlOps.tla spec/CalWire.tla spec/CalWireGen.tla spec/CalWireJudge.tla spec/CardWire.tla spec/CardWireGen.tla spec/CardWireJudge.tla harness/xmlt harness/cmd/wirerec lib/checks_wire.py",
+   "serves_properties": ["C08", "C09"],
+   "kind_free_text": "protocol message grammar as TLA+ operators over abstract XML; TLC proves writer/reader agreement and enumerates the message universe; real client/server bound in both directions"},
   {"name": "davtree", "path": "spec/DavTree.tla spec/DavTreeMC.tla spec/DavSim.tla spec/DavJudge.tla harness/cmd/davrec lib/checks_dav.py",
    "serves_properties": ["C01", "C02", "C03", "C04", "C17"],
    "kind_free_text": "TLA+ resource-tree specification; TLC model check + case generation; Go recorder on the real webdav.Handler; TLC trace-validation judge"},
